@@ -426,11 +426,26 @@ class Model:
         if k == SCHEDULE:
             par = self.n[d]['parent']
             if par >= 0 and self.kind(par) == 'C': self.res[par] = self.n[d]['prong']
-        elif d == 0: self.deep_request(0, k, idx)
+        elif d == 0: self.deep_request(0, k, idx); self.claim(idx)
         else:
             self.cur_dest = d
             self.request_immediate(d); self.forward_active(0, k, idx)
             self.cur_dest = None
+            self.claim(idx)
+    def pending_active(self, node):
+        while self.n[node]['parent'] >= 0:
+            par = self.n[node]['parent']
+            if self.kind(par) == 'C':
+                t = self.want[par] if self.want[par] is not None else self.act[par]
+                if t != self.n[node]['prong']: return False
+            node = par
+        return True
+    def claim(self, idx):
+        """sub-states picked by a select / utility / random evaluation are activated by the request as well: what it is about to enter
+        and no earlier request of the step has claimed is attributed to it"""
+        if idx is None or not self.on or getattr(self, 'entering', False) or 'evaluation-picks-not-attributed' in self.dev: return
+        for s in range(len(self.n)):
+            if s not in self.targets and not self.is_active(s) and self.pending_active(s): self.targets[s] = idx
     def enqueue(self, req):
         """request = (kind, dest, id, origin); False when the bounded queue rejects it"""
         if len(self.queue) < self.cap:
@@ -490,7 +505,9 @@ class Model:
         while pos < len(guards) and guards[pos]['pend'] == []:
             for q in guards[pos]['issue']: self.enqueue(q)
             pos += 1
+        self.entering = True     # during the first activation nothing is attributed beyond what the requests pin themselves
         current, rounds, pos = self._rounds(guards, pos, True)
+        self.entering = False
         self.enter(0); self.clear_req()
         self.prev = current
         if pos != len(guards): self.notes.append('guards-unconsumed')
